@@ -46,7 +46,12 @@ where
     let mut accumulated_slack = Probability::zero();
 
     Ok(probabilities.iter().map(move |probability_float| {
-        let left_cumulative = (cumulative_float * scale).as_() + accumulated_slack;
+        // Rounding errors in floating point arithmetic can make `cumulative_float * scale`
+        // exceed `free_weight` by a few units (e.g., for `f32` with `PRECISION >= 24`). We have
+        // to clamp it so that the cumulative distribution stays strictly increasing and below
+        // `1 << PRECISION` (otherwise the last symbols would end up with zero probability).
+        let left_cumulative =
+            core::cmp::min((cumulative_float * scale).as_(), free_weight) + accumulated_slack;
         cumulative_float = cumulative_float + *probability_float;
         accumulated_slack = accumulated_slack.wrapping_add(&Probability::one());
         left_cumulative
